@@ -59,6 +59,7 @@ func genC02(r *gen.Rand, maxLayers int) *C02Case {
 		add(wire.Op{Op: "MergeDocument", ID: "M0|doc0", Data: &wire.Tree{V: doc}}, 1, 0)
 	}
 	nBase := r.Range(1, 4)
+	bigIDs := !c.FileRoute && r.Chance(0.25)
 	var baseTrees []map[string]any
 	var prev []string
 	progCfg := gen.ProgCfg{Tree: tc, Merge: true, Repeat: true, Output: true, Interp: true, StrRef: true, Plants: 1}
@@ -79,6 +80,10 @@ func genC02(r *gen.Rand, maxLayers int) *C02Case {
 		}
 		doc["name"] = fmt.Sprintf("n%d", i)
 		doc["kind"] = gen.PickAny(r, c02Kinds)
+		if bigIDs {
+			// 64-bit identifiers that differ only in their low bits
+			doc["uid"] = 1180591620717411300 + i*3
+		}
 		id := fmt.Sprintf("L0|doc%d", i)
 		add(wire.Op{Op: "MergeDocument", ID: id, Data: &wire.Tree{V: doc}}, 0, 0)
 		prev = append(prev, id)
@@ -186,11 +191,19 @@ func genC02(r *gen.Rand, maxLayers int) *C02Case {
 				patch = ch.Child(r, wire.Clone(gen.PickAny(r, baseTrees)))
 				delete(patch, "name")
 				delete(patch, "kind")
+				delete(patch, "uid")
 				if len(patch) == 0 {
 					patch["z"] = l
 				}
 			}
-			if r.Chance(0.4) {
+			if bigIDs && r.Chance(0.5) {
+				uid := 1180591620717411300 + r.Intn(nBase)*3
+				if r.Chance(0.3) {
+					patch["$match"] = map[string]any{"uid": uid, "$invert": true}
+				} else {
+					patch["$match"] = map[string]any{"uid": uid}
+				}
+			} else if r.Chance(0.4) {
 				switch r.Intn(7) {
 				case 0:
 					patch["$match"] = map[string]any{"name": fmt.Sprintf("n%d", r.Intn(nBase))}
